@@ -237,6 +237,19 @@ def notation_format(notation):
     return d + "T" + tt + zz
 
 
+LITERAL_ZONES = [330, 345, -210, 570, 60, -300, 765, -690, 0]
+
+
+def literal_zone_pf(rng, n2):
+    """A print format whose zone is written out as a number ('...+0530'):
+    the date-time is converted to that zone."""
+    off = rng.choice(LITERAL_ZONES)
+    if n2["zone"] == "hh":
+        off = (off // 60) * 60
+    text = notation_format(dict(n2, zone=None)) + cm.render_zone(n2, off)
+    return {"notation": n2, "text": text, "lit_off": off}
+
+
 STRF_FORMATS = ["%Y-%m-%dT%H:%M:%S%z", "%F %X", "%Y%j", "%s", "%d/%m/%Y",
                 "%H:%M", "%Y-%m-%d", "%j", "%X %z"]
 # directives the library hands to the standard library's strftime
@@ -272,6 +285,9 @@ def gen_point_spec(rng, mode, allow_now=True):
             # that decimal form is not something C19 states: keep to hh:mm:ss
             n2["time"] = "hms"
         spec["pf"] = {"notation": n2, "text": notation_format(n2)}
+        if n2["time"] and n2["zone"] in ("hhmm", "hh") and (
+                rng.random() < 0.3):
+            spec["pf"] = literal_zone_pf(rng, n2)
     elif r < 0.3:
         spec["pf"] = {"strf": rng.choice(STRF_FORMATS)}
     elif r < 0.36 and model.BASE[mode] == "gregorian" and (
@@ -660,6 +676,8 @@ def gen_invocation(rng, world_state):
             if n2["time"] in ("hms_dec", "hm_dec", "h_dec"):
                 n2["time"] = "hms"
             spec["pf"] = {"notation": n2, "text": notation_format(n2)}
+            if n2["time"] and n2["zone"] == "hhmm" and rng.random() < 0.3:
+                spec["pf"] = literal_zone_pf(rng, n2)
         elif r < 0.34 and model.BASE[mode] == "gregorian" and (
                 1100 <= w["y"] <= 9800):
             # directives only the standard library's strftime knows
@@ -1111,6 +1129,8 @@ class Sim(object):
                     return None
                 if out_n["zone"] == "Z":
                     out_off = 0
+                if pf.get("lit_off") is not None:
+                    out_off = pf["lit_off"]
             f = cm.civil_fields(mode, t_us + total, out_off)
             text = cm.render(out_n, f, out_off)
             outs.add(text if text is not None else "REFUSE")
@@ -1697,6 +1717,8 @@ class Sim(object):
             out_n = pf["notation"]
             if out_n["zone"] == "Z":
                 off = 0
+            if pf.get("lit_off") is not None:
+                off = pf["lit_off"]
         want = []
         for t in ts:
             f = cm.civil_fields(mode, t, off)
